@@ -136,3 +136,40 @@ def accumulator_only(n, score):
     for i in range(n):
         out[i] = score(i)
     return out
+
+
+def select_within_tolerance(labels, wanted, data):
+    keep = np.isclose(labels, wanted)
+    return data[keep]
+
+
+def sanity_within_tolerance(x):
+    if np.allclose(x, 0):
+        raise ValueError('all zero')
+    return x / x.sum()
+
+
+def store_into_copy(a, rows, cols, v):
+    mask = rows > 0
+    a[mask][:, cols] = v
+    return a
+
+
+def store_into_view(a, k, v):
+    a[k][1:3] = v
+    return a
+
+
+def condensed_remapped(idx, n, values, out):
+    row, col = np.triu_indices(len(idx), 1)
+    row, col = idx[row], idx[col]
+    pos = row * n - row * (row + 1) // 2 + col - row - 1
+    out[pos] = values
+    return out
+
+
+def condensed_ordered(n, values, out):
+    row, col = np.triu_indices(n, 1)
+    pos = n * row - (row * (row + 1)) / 2 + (col - row - 1)
+    out[pos.astype(int)] = values
+    return out
